@@ -19,7 +19,8 @@ MIN_COUNTERS = dict(quick={'shape_asserted': 1400, 'neighbour_independence_asser
                            'forwarding_asserted': 1400, 'cases_where_columns_chose_different_rows': 300,
                            'cases_with_nonfinite_neighbours': 30},
                     thorough={'neighbour_independence_asserted': 30000})
-RULE = ('shapes with 0..3 axes and <= 40 elements; methods central/forward/backward/complex/multicomplex; n <= 4, order <= 6; '
+RULE = ('Replacement neighbours include values outside the domain, at poles and of extreme magnitude (1e13..1e17, 1e-300). ' 
+        'shapes with 0..3 axes and <= 40 elements; methods central/forward/backward/complex/multicomplex; n <= 4, order <= 6; '
         'six elementwise test functions built from + - * / sqrt (some with a bounded domain, so replaced neighbours can make '
         'steps leave the domain); the other elements are replaced by random values, then the element is evaluated alone as a '
         'scalar. distinct non-trivial = (rank, method, n, function) for cases where the per-column row choice observed in '
